@@ -198,7 +198,7 @@ fn run_case(ctx: &mut Ctx, idx: u64) {
 }
 
 pub fn run(ctx: &mut Ctx) {
-    let n_cases = ctx.pick(16000, 1000000);
+    let n_cases = ctx.pick(50000, 1000000);
     for idx in 0..n_cases {
         if !ctx.mine(idx) {
             continue;
